@@ -49,7 +49,8 @@ package aof
 //@   ensures local-removekeys-applies-removekeys: mut.Type == proto.MutationType_REMOVE_KEYS ==> (op == 6 && n == 1)
 //@   ensures local-unknown-type-applies-nothing: (mut.Type != proto.MutationType_SIMPLE_PUT && mut.Type != proto.MutationType_SIMPLE_DELETE && mut.Type != proto.MutationType_PREFIX_APPEND && mut.Type != proto.MutationType_PREFIX_REMOVE && mut.Type != proto.MutationType_IMPORT && mut.Type != proto.MutationType_REMOVE_KEYS) ==> (n == 0 && err == nil)
 //@   ensures local-result-is-the-operations-result: n == 1 ==> err == res
-//@   ensures store-stays-well-formed: memory.repOK(d.memKv)
+//@   ensures store-stays-well-formed: memory.repOK(d.memKv) && memory.empty == nil && d.memKv == old(d.memKv) && d.log == old(d.log) && d.counter == old(d.counter) && d.log.last == old(d.log.last)
+//@   ensures only-a-duplicate-append-is-rejected: err == nil || (mut.Type == proto.MutationType_PREFIX_APPEND && err == chord.ErrKVPrefixConflict)
 
 // The request handed to the single writer goroutine is the pooled request whose mutation the caller's
 // closure has just filled in; the caller gets the writer's answer. (The queue hand-off itself -- that the
@@ -169,3 +170,103 @@ package aof
 //@   at after call RangeKeys#1: ghost r0 := callresult0
 //@   at after call RangeKeys#1: ghost r1 := callresult1
 //@   ensures local-returns-the-memory-stores-answer: r == r0 && err == r1
+
+// ---- C20/C21/C22: the log. Index discipline: d.counter is the index of the next entry (last + 1).
+
+//@ func (d *DiskKV) decodeEntry(entry *proto.LogEntry, mut *proto.Mutation) (err error)
+//@   opt frame=off
+//@   requires entry != nil && mut != nil
+//@   ghost decoded bool = false
+//@   at call UnmarshalVT#1: assert only-verified-uncompressed-data-is-decoded: entry.Checksum == crc64ecma(str(entry.Data)) && entry.Version == proto.LogVersion_V1 && callarg0 == mut && callarg1 == entry.Data
+//@   at call UnmarshalVT#1: ghost decoded := true
+//@   ensures checksum-mismatch-is-refused: entry.Checksum != crc64ecma(str(entry.Data)) ==> err != nil
+//@   ensures unknown-version-is-refused: entry.Version != proto.LogVersion_V1 ==> err != nil
+//@   ensures local-success-means-the-mutation-was-decoded: err == nil ==> decoded
+
+//@ func (d *DiskKV) appendLog(mut *proto.Mutation) (err error)
+//@   safety off
+//@   opt frame=off
+//@   requires d != nil && d.log != nil && d.counter < 9223372036854775807
+//@   ghost sum uint64 = 0
+//@   ghost body []byte = nil
+//@   at after call Checksum#1: ghost sum := callresult
+//@   at after call Checksum#1: ghost body := callarg0
+//@   at call MarshalToSizedBufferVT#2: assert entry-carries-version-data-and-checksum: entry.Version == proto.LogVersion_V1 && entry.Data == mutBuf && entry.Checksum == sum && body == mutBuf
+//@   at call Write#1: assert written-at-the-counter: callarg0 == d.log && callarg1 == d.counter && callarg2 == logBuf
+//@   ensures appended-at-the-counter: err == nil ==> (d.counter == old(d.counter) + 1 && d.log.last == old(d.counter))
+//@   ensures failure-changes-nothing: err != nil ==> (d.counter == old(d.counter) && d.log.last == old(d.log.last))
+//@   ensures nothing-else-changes: d.log == old(d.log) && d.memKv == old(d.memKv)
+
+//@ func (d *DiskKV) rollbackOne(mut *proto.Mutation, err error)
+//@   safety off
+//@   opt frame=off
+//@   requires d != nil && d.log != nil && d.counter >= 2 && d.log.last == d.counter - 1
+//@   ghost truncated bool = false
+//@   at call TruncateBack#1: assert truncates-to-the-entry-before-the-last: callarg0 == d.log && callarg1 == old(d.counter) - 2
+//@   at after call TruncateBack#1: ghost truncated := callresult == nil
+//@   ensures counter-steps-back: d.counter == old(d.counter) - 1
+//@   ensures local-the-last-entry-is-gone: truncated ==> d.log.last == d.counter - 1
+//@   ensures last-entry-gone-unless-truncation-failed: d.log.last == d.counter - 1 || d.log.last == d.counter
+//@   ensures nothing-else-changes: d.log == old(d.log) && d.memKv == old(d.memKv)
+
+//@ func (d *DiskKV) replayLogs() (err error)
+//@   opt frame=off
+//@   opt puredyn=content
+//@   requires d != nil && d.log != nil && d.memKv != nil && memory.repOK(d.memKv) && memory.empty == nil && d.log.last < 9223372036854775807
+//@   ghost applied uint64 = 0
+//@   ghost herr error = nil
+//@   ghost buf0 []byte = nil
+//@   at call Read#1: assert entries-are-read-in-index-order: callarg0 == d.log && callarg1 == applied + 1
+//@   at after call Read#1: ghost buf0 := callresult0
+//@   at call Read#1: ghost herr := nil
+//@   at call UnmarshalVT#1: assert entry-is-decoded-from-its-own-buffer-only: callarg0 == entry && callarg1 == buf0 && entry.Version == proto.LogVersion_UNKNOWN_VERSION && entry.Data == nil && entry.Checksum == 0
+//@   at call decodeEntry#1: assert every-entry-is-verified-into-a-clean-mutation: callarg1 == entry && callarg2 == mut && mut.Type == proto.MutationType_UNKNOWN_TYPE && mut.Key == nil && mut.Value == nil && mut.Keys == nil && mut.Values == nil
+//@   at call handleMutation#1: assume logged-imports-were-well-formed-when-issued: mut.Type == proto.MutationType_IMPORT ==> (len(mut.Keys) == len(mut.Values) && (forall i int {mut.Values[i]} :: (0 <= i && i < len(mut.Values)) ==> mut.Values[i] != nil) && (forall i int, j int {mut.Keys[i], mut.Keys[j]} :: (0 <= i && i < j && j < len(mut.Keys)) ==> str(mut.Keys[i]) != str(mut.Keys[j])))
+//@   at call handleMutation#1: assert applies-the-decoded-mutation: callarg1 == mut
+//@   at after call handleMutation#1: ghost herr := callresult
+//@   at after call handleMutation#1: ghost applied := applied + 1
+//@   ensures local-success-applies-every-entry-in-order-and-sets-the-counter: err == nil ==> (applied == old(d.log.last) && d.counter == old(d.log.last) + 1)
+//@   ensures local-a-logged-mutation-the-store-had-rejected-does-not-fail-recovery: err != nil ==> herr != chord.ErrKVPrefixConflict
+//@   loop buf: invariant idx: 1 <= i && i <= index + 1 && applied == i - 1 && index == old(d.log.last) && d.log.last == old(d.log.last) && (herr == nil || herr == chord.ErrKVPrefixConflict)
+//@   loop buf: invariant clean-messages: entry != nil && mut != nil && entry.Version == proto.LogVersion_UNKNOWN_VERSION && entry.Data == nil && entry.Checksum == 0 && mut.Type == proto.MutationType_UNKNOWN_TYPE && mut.Key == nil && mut.Value == nil && mut.Keys == nil && mut.Values == nil
+//@   loop buf: invariant store: memory.repOK(d.memKv) && memory.empty == nil && d.memKv == old(d.memKv) && d.log == old(d.log)
+
+// The single writer: a mutation is logged before it is applied, rolled back only if it was logged and then
+// rejected, and the requester is answered with the outcome. (Crash points: after appendLog the mutation is
+// in the log although handleMutation may still reject it; replayLogs carries the matching obligation.)
+//@ func (d *DiskKV) Start()
+//@   safety off
+//@   opt frame=off
+//@   opt puredyn=content
+//@   requires d != nil && d.log != nil && d.memKv != nil && memory.repOK(d.memKv) && memory.empty == nil
+//@   requires counter-is-the-next-index: d.counter == d.log.last + 1 && d.counter < 4611686018427387904 && 0 <= d.log.last && d.log.last < 4611686018427387904
+//@   at call appendLog#1: assume requests-carry-a-mutation: m != nil && m.mut != nil
+//@   at call handleMutation#1: assume requests-are-well-formed: (m.mut.Type == proto.MutationType_IMPORT ==> (len(m.mut.Keys) == len(m.mut.Values) && (forall i int {m.mut.Values[i]} :: (0 <= i && i < len(m.mut.Values)) ==> m.mut.Values[i] != nil) && (forall i int, j int {m.mut.Keys[i], m.mut.Keys[j]} :: (0 <= i && i < j && j < len(m.mut.Keys)) ==> str(m.mut.Keys[i]) != str(m.mut.Keys[j]))))
+//@   at call appendLog#1: assume counter-does-not-overflow: d.counter < 4611686018427387904
+//@   loop mutError: invariant store: d.log != nil && d.memKv != nil && memory.repOK(d.memKv) && memory.empty == nil && d.log == old(d.log) && d.memKv == old(d.memKv)
+//@   loop mutError: invariant counter-is-the-next-index-unless-a-truncation-failed: d.counter >= 1 && (d.counter == d.log.last + 1 || d.counter == d.log.last)
+//@   ghost logged bool = false
+//@   ghost applied bool = false
+//@   ghost aerr error = nil
+//@   ghost rolled bool = false
+//@   at call appendLog#1: assert logs-the-received-mutation: callarg1 == m.mut
+//@   at call appendLog#1: ghost applied := false
+//@   at call appendLog#1: ghost rolled := false
+//@   at after call appendLog#1: ghost logged := callresult == nil
+//@   at call handleMutation#1: assert logged-before-applied: logged && !applied && callarg1 == m.mut
+//@   at after call handleMutation#1: ghost applied := true
+//@   at after call handleMutation#1: ghost aerr := callresult
+//@   at call rollbackOne#1: assert rollback-only-for-a-logged-and-rejected-mutation: logged && applied && aerr != nil && !rolled && callarg1 == m.mut
+//@   at call rollbackOne#1: ghost rolled := true
+//@   at send#1: assert requester-gets-the-outcome: callarg0 == m.err && (logged ==> (applied && callarg1 == aerr && (aerr != nil ==> rolled))) && (!logged ==> (!applied && callarg1 == fs.ErrInvalid))
+
+// an Import is one request, hence one log entry: a crash cannot leave a partial import behind
+//@ func (d *DiskKV) Import(ctx context.Context, keys [][]byte, values []*protocol.KVTransfer) (err error)
+//@   safety off
+//@   opt frame=off
+//@   requires d != nil
+//@   ghost nreq int = 0
+//@   ghost rerr error = nil
+//@   at call mutationHandler#1: ghost nreq := nreq + 1
+//@   at after call mutationHandler#1: ghost rerr := callresult
+//@   ensures local-one-request-whose-answer-is-returned: nreq == 1 && err == rerr
